@@ -981,3 +981,156 @@ Section History.
                  | x :: r => let '(st', fam') := history_step t st fam x in history_states r (S t) st' fam'
                  end.
 End History.
+
+(* ================================================================ wave 2 additions (p-C01) *)
+(* ---------------------------------------------------------------- deliberately WRONG variants (negative examples of C01) *)
+(* A setColumn WITHOUT the copy of qframe.go:742-744: a new column is appended to the receiver's
+   header slice (in place when cap > len: every frame sharing the header array sees or loses it),
+   an existing column is overwritten in the receiver's header slice. *)
+Definition set_column_nocopy (name_ok : bool) (name : bytes) (ty : N) (parts : list slice) (qf : qframe)
+  : prog (outcome qframe) :=
+  if negb name_ok then Ret (Ok (with_err qf)) else
+  let* ex := by_name qf name in
+  let n := s_len (q_cols qf) in
+  let pos := match ex with Some c => c_pos c | None => n end in
+  let news := mkCol name pos ty parts in
+  let? nc := match ex with
+             | Some _ => let? _ := slice_set (q_cols qf) pos (VCol news) in Ret (Ok (q_cols qf))
+             | None => lift (slice_append (q_cols qf) (VCol news))
+             end in
+  let* nm := map_make in
+  let* kv := match q_map qf with Some m => map_read m | None => Ret [] end in
+  let* _ := for_each kv (fun e _ => map_store nm (fst e) (snd e)) tt in
+  let* _ := map_store nm name news in
+  Ret (Ok (mkQF nc (Some nm) (q_idx qf) (q_err qf))).
+
+(* An Aggregate whose aggregation orders every group THROUGH the group's index slice (an in-place sort
+   of ix instead of a sort of the subset copy), then proceeds like Aggregate. *)
+Definition op_aggregate_sorting (less : sort_less) (script : nat -> sscript) (aggs : list agg) (g : grouper)
+  : prog (outcome qframe) :=
+  if g_err g then Ret (Ok err_frame) else
+  let* groups := read_slices (g_indices g) in
+  let? _ := for_eachO groups (fun s _ => run_sorter s [] less (script (s_len s))) tt in
+  op_aggregate aggs g.
+
+(* ---------------------------------------------------------------- abstraction to the L0 model (C01 refinement) *)
+(* abs1: a frame REFERENCE (struct value of slice headers) read in a store as an L0 frame of
+   Model/Frame.v: the header slice gives the columns in order, the index slice the row index.
+   The L1 level does not interpret cell values; how the storage arrays of a column decode to L0 column
+   data is a DECODER (type tag, contents of the storage arrays -> coldata) over which the refinement
+   theorems of Proofs/HeapRefine.v quantify; [dec_std] is the decoder of the encoding used by
+   [wrap_result] (string: lengths / -1 for null + byte blob; enum: ranks + value table, and - since
+   the L1 column has no such field - never "strict"). *)
+From QF Require Model.Frame Model.Sort.
+
+Definition seg_of (st : store) (s : slice) : list val := slice_seg s (read_loc st (s_base s)).
+Definition abs_ix (st : store) (s : slice) : list nat := map (fun v => row (as_z v)) (seg_of st s).
+Definition hdr_of (st : store) (s : slice) : list col := map as_col (seg_of st s).
+
+Definition decoder := N -> list (list val) -> option Frame.coldata.
+Definition abs_col (dec : decoder) (st : store) (c : col) : option Frame.coldata :=
+  dec (c_ty c) (map (seg_of st) (c_parts c)).
+
+Fixpoint abs_cols (dec : decoder) (st : store) (cs : list col) : option (list (bytes * Frame.coldata)) :=
+  match cs with
+  | [] => Some []
+  | c :: r => match abs_col dec st c, abs_cols dec st r with
+              | Some d, Some ds => Some ((c_name c, d) :: ds)
+              | _, _ => None
+              end
+  end.
+
+Definition abs1 (dec : decoder) (st : store) (qf : qframe) : option Frame.frame :=
+  match abs_cols dec st (hdr_of st (q_cols qf)) with
+  | Some cs => Some (Frame.mkFrame cs (abs_ix st (q_idx qf)) (q_err qf))
+  | None => None
+  end.
+
+Definition val_n (v : val) : N := Z.to_N (as_z v).
+Definition val_bytes (v : val) : bytes := match v with VStr b => b | _ => [] end.
+Fixpoint dec_strings (ptrs blob : list val) : list (option bytes) :=
+  match ptrs with
+  | [] => []
+  | p :: r => if (as_z p <? 0)%Z then None :: dec_strings r blob
+              else Some (map val_n (firstn (Z.to_nat (as_z p)) blob)) :: dec_strings r (skipn (Z.to_nat (as_z p)) blob)
+  end.
+Definition dec_std : decoder := fun ty parts =>
+  match parts with
+  | [d] => if (ty =? ty_int)%N then Some (Frame.ICol (map as_z d))
+           else if (ty =? ty_float)%N then Some (Frame.FCol (map val_n d))
+           else if (ty =? ty_bool)%N then Some (Frame.BCol (map as_b d))
+           else None
+  | [d; x] => if (ty =? ty_string)%N then Some (Frame.SCol (dec_strings d x))
+              else if (ty =? ty_enum)%N then Some (Frame.ECol (map val_n d) (map val_bytes x) false)
+              else None
+  | _ => None
+  end.
+
+(* the content of the by-name map of a frame reference (what map_read returns) *)
+Definition map_of (st : store) (m : option loc) : list (bytes * col) :=
+  match m with
+  | Some l => match read_loc st l with VMap kv :: _ => kv | _ => [] end
+  | None => []
+  end.
+
+(* A sorter script read at L0: Less and Swap of Model/Sort.v over the index as a list of row ids.
+   ([run_sorter] is the same script over the index ARRAY of the heap.) *)
+Fixpoint script_run (lt : nat -> nat -> bool) (sc : sscript) (s : list nat) : outcome (list nat) :=
+  match sc with
+  | SDone => Ok s
+  | SLess i j k => do b <- Sort.less lt s i j; script_run lt (k b) s
+  | SSwap i j k => do s' <- Sort.swap s i j; script_run lt k s'
+  end.
+
+(* what Sorter.Less reads for row r: the cells of the sort columns (pure reading of [cols_cell]) *)
+Definition cell_val (st : store) (c : col) (r : Z) : outcome (list val) :=
+  match c_parts c with
+  | [] => Ok []
+  | d :: rest =>
+      if (row r <? s_len d)%nat
+      then do v <- idx (read_loc st (s_base d)) (s_off d + row r);
+           Ok (v :: flat_map (seg_of st) rest)
+      else Panic
+  end.
+Definition cells_val (st : store) (cs : list col) (r : Z) : outcome (list (list val)) :=
+  omap (fun c => cell_val st c r) cs.
+
+(* ---------------------------------------------------------------- executable well-formedness of a frame reference *)
+(* ref_ok_b st qf = true implies the premise [ref_ok] of the refinement theorems for EVERY decoder
+   (Proofs/HeapRefine.v, ref_ok_b_sound): the slices lie inside their arrays, the map's keys are
+   distinct, and for every name the by-name map holds exactly the LAST header column with that name,
+   with pos = its position in the header slice.  Meant to be evaluated on every member of a replayed
+   history (it is false e.g. for a header entry whose pos field is not its position). *)
+Definition slice_eqb (a b : slice) : bool :=
+  (loc_eqb (s_base a) (s_base b) && (s_off a =? s_off b)%nat && (s_len a =? s_len b)%nat && (s_cap a =? s_cap b)%nat)%bool.
+Definition col_eqb (a b : col) : bool :=
+  (bytes_eqb (c_name a) (c_name b) && (c_pos a =? c_pos b)%nat && (c_ty a =? c_ty b)%N
+   && list_eqb slice_eqb (c_parts a) (c_parts b))%bool.
+Definition in_bounds_b (st : store) (s : slice) : bool :=
+  ((s_len s <=? s_cap s)%nat && (s_off s + s_cap s <=? length (read_loc st (s_base s)))%nat)%bool.
+Fixpoint hdr_last (name : bytes) (hs : list col) : option (nat * col) :=
+  match hs with
+  | [] => None
+  | h :: r => match hdr_last name r with
+              | Some (i, c) => Some (S i, c)
+              | None => if bytes_eqb (c_name h) name then Some (0, h) else None
+              end
+  end.
+Fixpoint nodup_keys (ks : list bytes) : bool :=
+  match ks with
+  | [] => true
+  | k :: r => (negb (existsb (bytes_eqb k) r) && nodup_keys r)%bool
+  end.
+Definition ref_ok_b (st : store) (qf : qframe) : bool :=
+  let hs := hdr_of st (q_cols qf) in
+  let kv := map_of st (q_map qf) in
+  (in_bounds_b st (q_cols qf) && in_bounds_b st (q_idx qf)
+   && forallb (fun c => forallb (in_bounds_b st) (c_parts c)) hs
+   && nodup_keys (map fst kv)
+   && forallb (fun e => forallb (in_bounds_b st) (c_parts (snd e))) kv
+   && match q_map qf with Some l => in_dom st l | None => true end
+   && forallb (fun nm => match map_get kv nm, hdr_last nm hs with
+                         | None, None => true
+                         | Some c, Some (p, h) => col_eqb c h && (c_pos c =? p)%nat && bytes_eqb (c_name c) nm
+                         | _, _ => false
+                         end) (map c_name hs ++ map fst kv))%bool.
